@@ -31,9 +31,16 @@ pub mod model {
     //! Oracle query log and programming interface used by the harnesses.
     pub const TAG_XMD: u8 = 1;
     pub const TAG_XOF: u8 = 2;
-    pub const MAX_Q: usize = 24;
+    pub const MAX_Q: usize = 16;
+    /// byte capture is only compiled in with the `logbytes` feature (it enlarges every trace)
+    #[cfg(feature = "logbytes")]
     pub const MAX_MSG: usize = 640;
+    #[cfg(feature = "logbytes")]
     pub const MAX_DST: usize = 96;
+    #[cfg(not(feature = "logbytes"))]
+    pub const MAX_MSG: usize = 1;
+    #[cfg(not(feature = "logbytes"))]
+    pub const MAX_DST: usize = 1;
 
     #[derive(Clone, Copy)]
     pub struct Query {
@@ -93,36 +100,59 @@ pub mod model {
         (s << 5).wrapping_sub(s).wrapping_add(b as u16)
     }
 
+    #[inline]
+    fn absorb(mut s: u16, m: &[u8]) -> u16 {
+        // 8 bytes per iteration keeps the loop trip count (and hence the unwind bound every harness
+        // needs) small: an 800-byte input is 100 iterations
+        let n = m.len();
+        let mut i = 0;
+        while i + 8 <= n {
+            s = mix(mix(mix(mix(mix(mix(mix(mix(s, m[i]), m[i + 1]), m[i + 2]), m[i + 3]), m[i + 4]), m[i + 5]), m[i + 6]), m[i + 7]);
+            i += 8;
+        }
+        while i < n {
+            s = mix(s, m[i]);
+            i += 1;
+        }
+        s
+    }
+
     /// The fold itself; public so that reference code can evaluate the oracle without logging.
     pub fn fold(tag: u8, msgs: &[&[u8]], dsts: &[&[u8]], len_in_bytes: usize) -> u16 {
         let mut s: u16 = 0x9E37 ^ (len_in_bytes as u16) ^ ((tag as u16) << 12);
         let mut k = 0;
         while k < msgs.len() {
-            let m = msgs[k];
-            let mut i = 0;
-            while i < m.len() {
-                s = mix(s, m[i]);
-                i += 1;
-            }
+            s = absorb(s, msgs[k]);
             k += 1;
         }
         s = s.wrapping_add(0x1357);
         let mut k = 0;
         while k < dsts.len() {
-            let m = dsts[k];
-            let mut i = 0;
-            while i < m.len() {
-                s = mix(s, m[i]);
-                i += 1;
-            }
+            s = absorb(s, dsts[k]);
             k += 1;
         }
         s.wrapping_add(0x2468)
     }
 
+    /// master switch: when off, queries are only counted (no log entry is written)
+    pub static mut LOG_ON: bool = false;
+    pub fn set_log(on: bool) {
+        unsafe {
+            LOG_ON = on;
+        }
+    }
+
     pub(crate) fn record(tag: u8, msgs: &[&[u8]], dsts: &[&[u8]], len_in_bytes: usize) -> u16 {
         let mut state = fold(tag, msgs, dsts, len_in_bytes);
         unsafe {
+            if !LOG_ON {
+                let k = NQ;
+                if PROG_IDX == k {
+                    state = PROG_STATE;
+                }
+                NQ = k + 1;
+                return state;
+            }
             let k = NQ;
             if PROG_IDX == k {
                 state = PROG_STATE;
